@@ -6,7 +6,9 @@ spec:   spec/Pipeline.tla (handler choice by MRO walk + latest registration, res
         StaleBodyDiscarded, NeverEscapesByDefault, HandlerRaisedErrorIsRendered, DefaultRendering),
         spec/ErrorRender.tla (status, Vary, negotiated representation, document fields),
         spec/MC_Pipeline.tla (C04 instances), spec/MC_ErrorRender.tla, spec/PipelineTrace.tla,
-        spec/ErrorRenderTrace.tla
+        spec/ErrorRenderTrace.tla; spec/ErrorObject.tla (one HTTPError instance with a history: Amend, Peek, Raise,
+        Catch/Reraise, RenderObj; law RenderedIsCurrent), spec/MC_ErrorObject(S).tla, spec/ErrorObjectTrace.tla;
+        mixin hierarchies: MC_PipelineM*.cfg / MC_PipelineS_M*.cfg (SecondaryBaseHonoured)
 legs:   M  exhaustive TLC check over registration histories x raise sites x raised classes, and of the
            rendering decision table; wrong-design switches (reversed MRO walk, first registration wins,
            no reset) must fail
@@ -36,7 +38,22 @@ META = {
                   'only for strings XML 1.0 can carry. An exception raised while the body is rendered is a raise site '
                   'like any other (status, headers and body of the handler\'s response are P-clauses); only what is sent '
                   'when rendering that response fails as well (SecondRenderFailureDropsBody) is a D-clause. A custom '
-                  'handler raising a non-HTTP exception propagates (modelled, outside the promise).',
+                  'handler raising a non-HTTP exception propagates (modelled, outside the promise). '
+                  'Hierarchies with several bases: the class table holds explicit linearisations incl. a mixin second '
+                  '(Overloaded(ServiceError, Retryable)), first (MixFirst(Retryable, AppB)) and on an HTTP error (HTTPMix); '
+                  'handlers for the secondary bases only, <= 2 registrations, raised from every site (process_request, '
+                  'process_resource, before/after hooks, responder, process_response, rendering), exhaustively and replayed '
+                  'on both stacks (quick: 700 sampled behaviours); invariant SecondaryBaseHonoured, wrong design '
+                  'primary_chain_only. Error objects with a history (spec/ErrorObject.tla): ONE HTTPError instance, attributes '
+                  'title/description/code/link/headers as versioned state, actions Amend (incl. setting None, in-place header '
+                  'mutation), Peek (to_dict/to_json/to_xml), Raise, Catch/Reraise (a handler amends and re-raises within the '
+                  'request), RenderObj; law RenderedIsCurrent for JSON, XML and a configured media handler; exhaustive <= 2 '
+                  'amendments/1 peek/2 renderings (thorough 3/2/3), TLC-simulated histories <= 4/3/3 replayed on both stacks, '
+                  'random histories up to 6 requests judged by ErrorObjectTrace; wrong design memo_json. Status is not amended. '
+                  'Accept spellings: ranges carry a spelling (lower/upper/sfx/mixed); the vendor types served through the '
+                  '+json/+xml fallback are enumerated in upper, mixed and suffix-only upper case (7 further Accept classes, '
+                  'random spellings in leg B); invariant SpellingIrrelevant, wrong design suffix_case_sensitive. Non-lower '
+                  'spellings of the exactly matched types (APPLICATION/JSON) are NOT in the enumerated classes.',
 }
 
 from engine import pipeline_harness as H
@@ -193,7 +210,8 @@ def random_accept(rng):
     if rng.random() < 0.06:
         return {'absent': True, 'malformed': False, 'raw': '', 'msfx': '', 'ranges': []}
     if rng.random() < 0.06:
-        raw, sfx = rng.choice([('garbage', ''), ('nonsense+json', 'json'), ('x+xml y', 'xml'), ('text', '')])
+        raw, sfx = rng.choice([('garbage', ''), ('nonsense+json', 'json'), ('x+xml y', 'xml'), ('text', ''),
+                               ('NONSENSE+JSON', 'json'), ('x+Xml y', 'xml')])
         return {'absent': False, 'malformed': True, 'raw': raw, 'msfx': sfx, 'ranges': []}
     types = [('application', 'json'), ('text', 'xml'), ('application', 'xml'), ('*', '*'), ('text', '*'), ('application', '*'),
              ('application', 'x-verif-tag'), ('image', 'png'), ('text', 'html'), ('application', 'vnd.verif+json'),
@@ -203,8 +221,274 @@ def random_accept(rng):
     for _ in range(rng.randint(1, 4)):
         t, s = rng.choice(types)
         sfx = 'json' if '+json' in s else 'xml' if '+xml' in s else ''
-        rs.append({'t': t, 's': s, 'q': rng.choice([10, 10, 10, 9, 8, 5, 3, 1, 0]), 'sfx': sfx})
+        # spellings: the types the serializer knows only by their structured-syntax suffix come in every spelling
+        cs = rng.choice(['lower', 'upper', 'sfx', 'mixed']) if sfx else 'lower'
+        rs.append({'t': t, 's': s, 'q': rng.choice([10, 10, 10, 9, 8, 5, 3, 1, 0]), 'sfx': sfx, 'cs': cs})
     return {'absent': False, 'malformed': False, 'raw': '', 'msfx': '', 'ranges': rs}
+
+
+# ---- error objects with a history (spec/ErrorObject.tla) -----------------------------------------------------------
+OBJ_ACTIONS = ['Amend', 'Peek', 'Raise', 'Catch', 'Reraise', 'RenderObj']
+
+
+class ObjValues:
+    """Concrete values of the attribute versions of ErrorObject.tla (version k -> the k-th value assigned)."""
+
+    def __init__(self, rng):
+        self.tails = [rng.choice([x for x in H.POOL if H.xml_expressible(x)]) for _ in range(16)]
+
+    def title(self, v):
+        return 'T%d|%s' % (v, self.tails[v % 16])
+
+    def description(self, v):
+        return 'D%d|%s' % (v, self.tails[(v + 5) % 16])
+
+    def code(self, v):
+        return 1000 + v
+
+    def link(self, v):
+        return {'text': 'L%d|%s' % (v, self.tails[(v + 9) % 16]), 'href': 'http://example.com/h%d' % v, 'rel': 'help'}
+
+    def hdr(self, v):
+        return 'h%d' % v
+
+    def version(self, f, x):
+        """The version whose value of attribute f is x (-1: absent, -2: no value this object ever held)."""
+        if x is None:
+            return -1
+        for v in range(64):
+            if getattr(self, f)(v) == x:
+                return v
+        return -2
+
+
+def run_object_history(ops, asgi, rng, in_place):
+    """Replay one history of ErrorObject.tla on ONE real falcon.HTTPError instance shared by two applications (one whose
+    error handler catches the object, does what the history says and raises it again).  Returns the observed documents."""
+    import falcon
+    import falcon.asgi
+    vals = ObjValues(rng)
+
+    class Catchable(falcon.HTTPError):
+        pass
+
+    err = Catchable(422, title=vals.title(0), description=vals.description(0), code=vals.code(0),
+                    headers={'X-Ver': vals.hdr(0)})
+    err.link = vals.link(0)
+    ver = [1]
+    script = []         # operations the catching handler performs in the current request
+
+    def amend(f, none):
+        v = ver[0]
+        ver[0] += 1
+        if f == 'hdr':
+            if in_place and isinstance(err.headers, dict):
+                err.headers['X-Ver'] = vals.hdr(v)
+            else:
+                err.headers = [('X-Ver', vals.hdr(v))] if v % 2 else {'X-Ver': vals.hdr(v)}
+        else:
+            setattr(err, f, None if none else getattr(vals, f)(v))
+
+    def peek(k):
+        if k == 'dict':
+            err.to_dict()
+        elif k == 'json':
+            err.to_json()
+        else:
+            import warnings
+            with warnings.catch_warnings():
+                warnings.simplefilter('ignore')
+                err.to_xml()
+
+    def apply(op):
+        if op['op'] == 'amend':
+            amend(op['f'], op['none'])
+        elif op['op'] == 'peek':
+            peek(op['k'])
+
+    def handle_body(ex):
+        for op in script:
+            apply(op)
+        raise ex
+
+    if asgi:
+        class Res:
+            async def on_get(self, req, resp):
+                resp.media = {'stale': True}
+                raise err
+
+        async def handler(req, resp, ex, params):
+            handle_body(ex)
+    else:
+        class Res:
+            def on_get(self, req, resp):
+                resp.media = {'stale': True}
+                raise err
+
+        def handler(req, resp, ex, params):
+            handle_body(ex)
+    apps = {}
+    for catching in (False, True):
+        app = (falcon.asgi.App if asgi else falcon.App)()
+        app.resp_options.xml_error_serialization = True
+        app.resp_options.media_handlers[H.TAG_TYPE] = H.TagHandler(asgi)
+        if catching:
+            app.add_error_handler(Catchable, handler)
+        app.add_route('/t', Res())
+        apps[catching] = app
+    observed = []
+    j = 0
+    while j < len(ops):
+        op = ops[j]
+        if op['op'] in ('amend', 'peek'):
+            apply(op)
+            j += 1
+            continue
+        if op['op'] != 'raise':
+            raise MachineryError('history: unexpected %r outside a request' % (op,))
+        accept = H.accept_text(op['acc'])
+        j += 1
+        catching = j < len(ops) and ops[j]['op'] == 'catch'
+        del script[:]
+        if catching:
+            j += 1
+            while ops[j]['op'] != 'reraise':
+                script.append(ops[j])
+                j += 1
+            j += 1
+        if ops[j]['op'] != 'render':
+            raise MachineryError('history: a request without its rendering')
+        req = H.Req('GET', '/t', headers=[('Accept', accept)] if accept is not None else [])
+        res = H.run_async(H.asgi_call_async(apps[catching], req)) if asgi else H.wsgi_call(apps[catching], req)
+        obs = {'kind': 'none', 'title': -1, 'description': -1, 'code': -1, 'link': -1, 'hdr': -1, 'status': res.status or 0,
+               'exc': H.safe_repr(res.exc) if res.exc is not None else None, 'errors': list(res.errors)}
+        if res.exc is None:
+            obs['hdr'] = vals.version('hdr', res.header('x-ver'))
+            ct = (res.header('content-type') or '').split(';')[0].strip().lower()
+            d = H.decode_doc(res.body, ct) if res.body else None
+            if d is not None:
+                obs['kind'] = 'media' if ct == H.TAG_TYPE else 'json' if ct.endswith('json') else 'xml'
+                for f in ('title', 'description', 'code', 'link'):
+                    obs[f] = vals.version(f, d.get(f))
+                obs['extra_keys'] = sorted(set(d) - {'title', 'description', 'code', 'link'})
+            elif res.body:
+                obs['kind'] = 'unknown'
+        observed.append(obs)
+        j += 1
+    return observed
+
+
+def replay_object_histories(ctx, hists, label):
+    n = 0
+    for hi, hist in enumerate(hists):
+        ops = hist['ops']
+        want = [op['doc'] for op in ops if op['op'] == 'render']
+        for asgi in (False, True):
+            seed = int(digest(hist), 16) ^ ctx.seed
+            in_place = bool((seed >> 3) & 1)
+            case = {'leg': 'A-object', 'iface': 'asgi' if asgi else 'wsgi', 'in_place': in_place, 'seed': seed,
+                    'ops': [{k: (H.accept_text(v) if k == 'acc' else v) for k, v in op.items() if k != 'doc'} for op in ops],
+                    'spec_docs': want}
+            got = run_object_history(ops, asgi, random.Random(seed), in_place)
+            case['observed'] = got
+            amended_between = any(op['op'] == 'amend' for op in ops)
+            ctx.case(case, nontrivial=amended_between and len(want) >= 2, key=digest([ops, asgi]))
+            n += 1
+            for ri, (w, g) in enumerate(zip(want, got)):
+                sig = {'clause': 'P4:object-current', 'kind': w['kind']}
+                if g['exc'] is not None:
+                    ctx.violation('P4:escaped', case, 'rendering %d: exception left the app: %s' % (ri + 1, g['exc']))
+                    break
+                if g['errors']:
+                    ctx.violation('P4:protocol', case, 'rendering %d: protocol errors %r' % (ri + 1, g['errors']))
+                    break
+                if g['status'] != 422:
+                    ctx.violation('P4:render-status', case, 'rendering %d: status %r, the error carries 422' % (ri + 1, g['status']))
+                    break
+                if g['kind'] != w['kind']:
+                    ctx.violation('P4:negotiation', case, 'rendering %d: representation %r, negotiated %r' % (ri + 1, g['kind'], w['kind']))
+                    break
+                bad = [f for f in ('title', 'description', 'code', 'link', 'hdr') if g[f] != w[f]] + g.get('extra_keys', [])
+                if bad:
+                    ctx.violation('P4:object-current', case, 'rendering %d (%s): %s not the current values of the error object: '
+                                  'observed versions %r, specified %r' % (ri + 1, w['kind'], bad,
+                                  {f: g[f] for f in ('title', 'description', 'code', 'link', 'hdr')},
+                                  {f: w[f] for f in ('title', 'description', 'code', 'link', 'hdr')}), signature=sig)
+                    break
+    ctx.traces_validated += n
+    ctx.progress('%s: %d replays' % (label, n))
+
+
+ABSENT_ACC = {'absent': True, 'malformed': False, 'raw': '', 'msfx': '', 'ranges': []}
+NO_OBS = {'kind': '', 'title': -1, 'description': -1, 'code': -1, 'link': -1, 'hdr': -1}
+OBJ_ACCEPTS = [ABSENT_ACC] + [
+    {'absent': False, 'malformed': False, 'raw': '', 'msfx': '', 'ranges': [dict(t=t, s=x, q=10, sfx=sfx, cs=cs)]}
+    for t, x, sfx, cs in [('application', 'json', '', 'lower'), ('text', 'xml', '', 'lower'), ('application', 'xml', '', 'lower'),
+                          ('application', 'x-verif-tag', '', 'lower'), ('application', 'vnd.verif+json', 'json', 'sfx'),
+                          ('application', 'vnd.verif+xml', 'xml', 'upper'), ('image', 'png', '', 'lower')]]
+
+
+def random_object_history(rng):
+    """A legal operation sequence of ErrorObject.tla, longer than the enumerated ones (presence tracked only to keep
+    "set to None" legal; the specification decides everything else)."""
+    present = {'description': True, 'code': True, 'link': True}
+    ops = []
+
+    def touch(n):
+        for _ in range(n):
+            if rng.random() < 0.6:
+                f = rng.choice(['title', 'description', 'code', 'link', 'hdr'])
+                none = f in present and present[f] and rng.random() < 0.3
+                if f in present:
+                    present[f] = not none
+                ops.append({'op': 'amend', 'f': f, 'none': none, 'k': '', 'acc': ABSENT_ACC})
+            else:
+                ops.append({'op': 'peek', 'f': '', 'none': False, 'k': rng.choice(['dict', 'json', 'json', 'xml']), 'acc': ABSENT_ACC})
+
+    for _ in range(rng.randint(2, 6)):
+        touch(rng.randint(0, 3))
+        ops.append({'op': 'raise', 'f': '', 'none': False, 'k': '', 'acc': rng.choice(OBJ_ACCEPTS)})
+        if rng.random() < 0.5:
+            ops.append({'op': 'catch', 'f': '', 'none': False, 'k': '', 'acc': ABSENT_ACC})
+            touch(rng.randint(0, 3))
+            ops.append({'op': 'reraise', 'f': '', 'none': False, 'k': '', 'acc': ABSENT_ACC})
+        ops.append({'op': 'render', 'f': '', 'none': False, 'k': '', 'acc': ABSENT_ACC})
+    return ops
+
+
+def judge_object_histories(ctx, count):
+    rng = ctx.rng
+    traces, cases = [], []
+    for k in range(count):
+        ops = random_object_history(rng)
+        asgi, seed = bool(k & 1), rng.getrandbits(32)
+        got = run_object_history(ops, asgi, random.Random(seed), bool(seed & 8))
+        case = {'leg': 'B-object', 'iface': 'asgi' if asgi else 'wsgi', 'seed': seed, 'in_place': bool(seed & 8),
+                'ops': [dict(op, acc=H.accept_text(op['acc'])) for op in ops], 'observed': got}
+        ctx.case(case, nontrivial=True, key=digest([ops, asgi]))
+        bad = [g for g in got if g['exc'] is not None or g['errors'] or g['status'] != 422]
+        if bad:
+            ctx.violation('P4:escaped' if bad[0]['exc'] is not None else 'P4:render-status', case,
+                          'object history: %r' % (bad[0],))
+            continue
+        it = iter(got)
+        tops = []
+        for op in ops:
+            obs = dict(NO_OBS)
+            if op['op'] == 'render':
+                g = next(it)
+                obs = {f: g[f] for f in NO_OBS}
+                if g.get('extra_keys'):
+                    obs['title'] = -2
+            tops.append(dict(op, obs=obs))
+        traces.append({'ops': tops})
+        cases.append(case)
+    vs = ctx.judge('ErrorObjectTrace', traces, workers=4, timeout=900)
+    for c, v in zip(cases, vs):
+        if v != 'ok':
+            clause = v.split('@')[0]
+            ctx.violation(clause, c, 'object history rejected by ErrorObjectTrace: %s' % v, signature={'clause': clause, 'leg': 'B-object'})
+    ctx.progress('leg B (error objects with a history): %d traces judged' % len(traces))
 
 
 def run(ctx):
@@ -231,12 +515,32 @@ def run(ctx):
     # a request after every registration
     rg = ctx.tlc('MC_Pipeline', ctx.pick('MC_PipelineG.cfg', 'MC_PipelineG2.cfg'), coverage=True, env=env, workers=8, timeout=600)
     H.require_actions(rg, ['AddHandler', 'XAddSame', 'NextRequest', 'HandleCall'])
+    # hierarchies with mixins: handlers registered for secondary bases only, raised from every site
+    rm = ctx.tlc('MC_Pipeline', ctx.pick('MC_PipelineM.cfg', 'MC_PipelineM2.cfg'), coverage=True, env=env, workers=4, timeout=600)
+    H.require_actions(rm, ['AddHandler', 'XReqCall', 'XRsrcCall', 'XBeforeCall', 'XResponder', 'XAfterCall', 'XRespCall',
+                           'XRenderFail', 'HandleCall'])
     rt = ctx.tlc('MC_ErrorRender', ctx.pick('MC_ErrorRenderQ.cfg', 'MC_ErrorRender.cfg'), coverage=True, workers=2, timeout=300)
     H.require_actions(rt, ['XRenderError'])
     table = list({digest(c): c for c in rt.json}.values())
     rc = ctx.tlc('MC_ErrorRender', 'MC_ErrorRenderC.cfg', coverage=True, workers=2, timeout=300)
     H.require_actions(rc, ['XRenderError'])
     ctable = list({digest(c): c for c in rc.json}.values())
+    # error objects with a history: one instance amended, peeked, raised and rendered repeatedly
+    ro = ctx.tlc('MC_ErrorObject', ctx.pick('MC_ErrorObjectQ.cfg', 'MC_ErrorObject.cfg'), coverage=True, workers=4, timeout=900)
+    H.require_actions(ro, OBJ_ACTIONS)
+    # vacuity of the new invariants: each named wrong design must be rejected by TLC (independent tiny runs, side by side)
+    from concurrent.futures import ThreadPoolExecutor
+    wrongs = [('primary_chain_only', 'MC_Pipeline', 'MC_PipelineM.cfg', dict(env, WRONG='primary_chain_only'),
+               ('MostSpecificWins', 'SecondaryBaseHonoured')),
+              ('suffix_case_sensitive', 'MC_ErrorRender', 'MC_ErrorRenderQ.cfg', {'WRONG_RENDER': 'suffix_case_sensitive'},
+               ('SpellingIrrelevant',)),
+              ('memo_json', 'MC_ErrorObject', 'MC_ErrorObjectQ.cfg', {'WRONG_RENDER': 'memo_json'}, ('RenderedIsCurrent',))]
+    with ThreadPoolExecutor(max_workers=len(wrongs)) as pool:
+        outs = list(pool.map(lambda w: ctx.tlc(w[1], w[2], env=w[3], workers=1, timeout=300, must_hold=False, count=False), wrongs))
+    for w, rw in zip(wrongs, outs):
+        if rw.violated not in w[4]:
+            raise MachineryError('wrong design %s: expected %s to fail, TLC reported %r' % (w[0], ' / '.join(w[4]), rw.violated))
+        ctx.extra.setdefault('wrong_designs_rejected', []).append(w[0])
     ctx.progress('leg M done: %d + %d distinct states, %d rendering cells' % (r.distinct, rt.distinct, len(table)))
 
     # ---- leg A: pipeline behaviours --------------------------------------------------------------
@@ -262,6 +566,13 @@ def run(ctx):
     hist = list({digest(b): b for b in rg.json}.values())
     ctx.extra['spec_registration_histories_exported'] = len(hist)
     H.replay_behaviours(ctx, OWN, hist, both=ctx.quick, seen_other=seen_other, label='leg A (registration histories)', rich=False)
+    rmx = ctx.tlc('MC_PipelineS', ctx.pick('MC_PipelineS_M.cfg', 'MC_PipelineS_M2.cfg'), env=env, workers=4, timeout=600, count=False)
+    mix = list({digest(b): b for b in rmx.json}.values())
+    ctx.extra['spec_mixin_behaviours_exported'] = len(mix)
+    if ctx.quick and len(mix) > 700:
+        rng.shuffle(mix)
+        mix = mix[:700]
+    H.replay_behaviours(ctx, OWN, mix, both=True, seen_other=seen_other, label='leg A (mixin hierarchies, both stacks)', rich=False)
     rs = ctx.tlc('MC_PipelineS', 'MC_PipelineS_HSim.cfg', env=env, simulate={'num': ctx.pick(120, 3000)}, depth=40,
                  seed=ctx.seed + 1, workers=4, timeout=600, count=False)
     deep = list({digest(b): b for b in rs.json}.values())
@@ -284,6 +595,14 @@ def run(ctx):
                     compare_render(ctx, cell, obs, case)
     ctx.traces_validated += n
     ctx.progress('leg A (rendering table): %d replays' % n)
+
+    # ---- leg A: error objects with a history (TLC-simulated histories of ErrorObject, both stacks) -------------
+    rh = ctx.tlc('MC_ErrorObjectS', 'MC_ErrorObjectS.cfg', simulate={'num': ctx.pick(100, 2500)}, depth=16, seed=ctx.seed + 7,
+                 workers=4, timeout=600, count=False)
+    hists = list({digest(b): b for b in rh.json}.values())
+    rng.shuffle(hists)
+    ctx.extra['spec_object_histories_exported'] = len(hists)
+    replay_object_histories(ctx, hists[:ctx.pick(500, 12000)], 'leg A (error objects with a history)')
 
     # ---- leg A: error classes (to_dict overrides, header-bearing constructors, redirects) x raise sites ----------
     n = 0
@@ -366,6 +685,7 @@ def run(ctx):
                           signature={'observed_status': t['obs']['status'], 'observed_ctype': mt_text(t['obs']['ctype']),
                                      'clause': clause})
     ctx.progress('leg B (Accept headers): %d distinct renderings judged' % len(uniq))
+    judge_object_histories(ctx, ctx.pick(400, 8000))
     if seen_other:
         ctx.extra['sibling_clauses_seen'] = seen_other
 
